@@ -324,8 +324,19 @@ def special_members(prog, handle_pq):
             # initializer_list, Array<K>) are governed by the alias/lifetime rules, not by the count protocol
             pt = T(f, f['params'][0]['t'])
             base = T(f, pt.get('to')) if pt.get('ref') or pt.get('ptr') else pt
-            if f.get('copyassign') or pt.get('ptr') or base.get('recp') in FAMILIES_BY_HANDLE.get(handle_pq, ()):
-                out.append(f)
+            same_inst = base.get('rec') in (None, f.get('cls')) or base.get('recp') != handle_pq
+            if not same_inst and f.get('body'):
+                # a converting assignment is a handle assignment when it rebinds the handle (writes its pointer member,
+                # touches the count, or delegates to the handle assignment); Array<double> = Array<int> does none of these
+                for w in fn_exprs(f):
+                    if w.get('k') == 'bin' and w.get('op') == '=' and strip_lv(w['x']).get('k') == 'mem' and T(f, strip_lv(w['x']).get('t')).get('ptr'):
+                        same_inst = True
+                    if w.get('k') == 'mem' and w.get('f') == 'rc':
+                        same_inst = True
+                    if w.get('k') == 'call' and w.get('n', (w.get('pq') or '').split('::')[-1]) == 'operator=' and w.get('clsp') == handle_pq:
+                        same_inst = True
+            if f.get('copyassign') or pt.get('ptr') or (base.get('recp') in FAMILIES_BY_HANDLE.get(handle_pq, ()) and same_inst):
+                out.append(f)       # (Array<double> = Array<int> converts the content in place: not a handle assignment)
     return out
 
 
